@@ -18,9 +18,9 @@ from common import (CACHE, ToolError, build_harness, load_known, log, repo_state
                     write_evidence)
 
 PROP_GROUPS = {
-    "C01": ["store"], "C02": ["conc"], "C03": ["conc"], "C05": ["store"], "C06": ["store", "conc", "http"],
-    "C07": ["store"], "C08": ["store"], "C09": ["store", "conc"], "C10": ["store", "http", "conc"], "C11": ["conc", "store"], "C12": ["codec", "store", "http"],
-    "C13": ["http"], "C20": ["store", "http"],
+    "C01": ["store"], "C02": ["conc"], "C03": ["conc"], "C04": ["dur"], "C05": ["store"], "C06": ["store", "conc", "http"],
+    "C07": ["store", "dur"], "C08": ["store"], "C09": ["store", "conc"], "C10": ["store", "http", "conc", "dur"],
+    "C11": ["conc", "store"], "C12": ["codec", "store", "http"], "C13": ["http"], "C20": ["store", "http"],
 }
 
 ASSUME = {
@@ -31,6 +31,12 @@ ASSUME = {
     "conc": ["TLC's verdict on XsConcurrent holds for the constants of the MC_conc_*.cfg files (2 writers, <= 3 frames each, B, M <= 3)",
              "schedules are explored at the granularity of the xs_verif gates; fjall and tokio internals are not gated",
              "the observer uses only the order of events that are really ordered (returned-before-called, delivery order)"],
+    "dur": ["TLC's verdict on XsDurable holds for the constants of the MC_dur_*.cfg files; memtable flush, journal rotation "
+            "and compaction are not in the model, they are sampled on the implementation by bulk runs",
+            "crash points are the store-mutating system calls (plus torn tails of journal writes) after the first "
+            "acknowledged operation; kill images are real SIGKILLs, power-loss images are reconstructed from an strace "
+            "log under an ordered-metadata file-system model (tools/durimg.py)",
+            "durability of CAS content against power loss is not claimed (the property excludes it)"],
     "store": ["TLC's verdict on XsStore holds for the constants of the MC_store_*.cfg files",
               "virtual clock and gated collector (cfg xs_verif) stand in for wall-clock time and thread timing",
               "topics, metas and contents are sampled from concretisation families; the model treats them as uninterpreted"],
